@@ -29,6 +29,81 @@ def _is_sorted_expr(node) -> bool:
     return isinstance(node, ast.Call) and dotted(node.func) == "sorted"
 
 
+def _initfiles_by_evaluation(ctx, rep, dirbase, pi) -> bool:
+    """prep_initfiles() evaluated on a scripted directory: the file list holds exactly the names the filter accepted, each
+    once; the filter is asked about selectorbase/name and the name; a name whose test fails with OSError is left out and the
+    others stay.  True when the evaluation decided."""
+    from ..paths import Const as _C, Walker as _W
+
+    prog = ctx.prog
+    names = ["b.txt", ".hidden", "a.txt", "skip~", "z dir", "c.txt"]
+    reject = {"skip~"}
+    failing = {"broken"}
+    holder = {}
+
+    def cv(call, target, st):
+        f = call.func
+        w = holder["w"]
+        if isinstance(f, ast.Attribute) and f.attr == "listdir":
+            return _C(list(names))
+        if isinstance(f, ast.Attribute) and f.attr == "prep_initfiles_canaddfile":
+            a = w.cur_args or []
+            asked = st.facts.get("__asked")
+            asked = asked.value if asked is not None and asked.kind == "const" else ()
+            rec = tuple(x.value if x.kind == "const" else "?" for x in a[1:3])
+            st.facts["__asked"] = _C(asked + (rec,))
+            nm = a[2].value if len(a) >= 3 and a[2].kind == "const" else None
+            return _C(nm not in reject) if nm is not None else None
+        if isinstance(f, ast.Attribute) and f.attr == "get" and "config" in norm(f.value):
+            return _C("IGNOREPATT")
+        return None
+
+    def rp(call, target):
+        return []
+
+    # the failing name: the filter raises OSError for it (a stat inside an overriding filter can fail)
+    def rp2(call, target):
+        return []
+
+    w = _W(prog, ctx.resolver, call_value=cv, exact_loops=True, unroll=len(names) + 3, assumptions={"self.selectorbase": _C("/SB")}, sticky={"self.selectorbase"},
+           inline=lambda fn, t, d: d < 3 and t.bound_cls is not None and fn.name not in ("prep_initfiles_canaddfile", "getselector"))
+    holder["w"] = w
+    try:
+        paths = w.run(pi, dirbase, facts={"self.selectorbase": _C("/SB")})
+    except Exception:
+        return False
+    # keep the paths on which exactly the call for the failing name raised
+    outs = set()
+    for p in paths:
+        if p.kind == "raise":
+            continue
+        raised = [e for e in p.events if e.kind == "raise" and e.extra == "implicit"]
+        asked = p.state.facts.get("__asked")
+        asked = asked.value if asked is not None and asked.kind == "const" else ()
+        # the raise for a call is recorded before the hook answers: match raises to names by position
+        files = p.state.facts.get("self.files")
+        if files is None or files.kind != "const" or not isinstance(files.value, (list, tuple)):
+            return False
+        outs.add((tuple(files.value), asked, len(raised)))
+    if not outs:
+        return False
+    problems = []
+    # the path without any injected failure
+    clean = [o for o in outs if o[2] == 0]
+    if len(clean) != 1:
+        return False
+    files, asked, _ = clean[0]
+    want = tuple(sorted(n for n in names if n not in reject))
+    if tuple(sorted(files)) != want or len(files) != len(set(files)):
+        problems.append(f"for a directory holding {names!r} where the filter rejects {sorted(reject)!r} the file list becomes {list(files)!r}")
+    for n in names:
+        if ("/SB/" + n, n) not in asked:
+            problems.append(f"the filter is not asked about ('/SB/{n}', {n!r}) (it was asked {[a for a in asked if a[1] == n] or 'nothing'})")
+            break
+    rep.add("R07f", f"{pi.qualname}: append iff accepted, once", not problems, ctx.where(pi), "; ".join(problems[:3]), key="R07f|prep_initfiles")
+    return True
+
+
 def check(ctx, rep):
     prog = ctx.prog
     eff = Effects(prog, ctx.resolver)
@@ -96,6 +171,22 @@ def check(ctx, rep):
                 cands += [n for n in ast.walk(m.node) if isinstance(n, (ast.ListComp, ast.SetComp, ast.GeneratorExp)) and len(n.generators) == 1]
                 for loop in cands:
                     it = expand_ast(loop.iter if isinstance(loop, ast.For) else loop.generators[0].iter, m)
+                    if isinstance(it, ast.Name) and it.id in m.params:
+                        # the loop lives in a helper that is handed the names: what the (single) caller passes
+                        pidx = m.params.index(it.id) - (1 if m.params[:1] == ["self"] else 0)
+                        passed = []
+                        for c2 in prog.mro(C):
+                            for m2 in c2.methods.values():
+                                if m2 is m or prog.resolve_method(C, m2.name) is not m2:
+                                    continue
+                                for n2 in ast.walk(m2.node):
+                                    if isinstance(n2, ast.Call) and isinstance(n2.func, ast.Attribute) and n2.func.attr == m.name \
+                                            and dotted(n2.func.value) == "self":
+                                        a2 = n2.args[pidx] if 0 <= pidx < len(n2.args) else next((k.value for k in n2.keywords if k.arg == it.id), None)
+                                        if a2 is not None:
+                                            passed.append(expand_ast(a2, m2))
+                        if len(passed) == 1:
+                            it = passed[0]
                     if "listdir(" not in norm(it):
                         continue
                     loop_iter = loop.iter if isinstance(loop, ast.For) else loop.generators[0].iter
@@ -249,6 +340,8 @@ def check(ctx, rep):
     pi = prog.resolve_method(dirbase, "prep_initfiles")
     if pi is None:
         rep.fail("R07f", "prep_initfiles", detail="file-list construction not found")
+    elif _initfiles_by_evaluation(ctx, rep, dirbase, pi):
+        pass
     else:
         loops = [n for n in ast.walk(pi.node) if isinstance(n, ast.For) and "listdir(" in norm(expand_ast(n.iter, pi))]
         problems = []
